@@ -239,6 +239,8 @@ def run(cx):
     # written by acknowledge_fragment is the one fragment_acknowledged reads
     from props.C04 import inst_fragment_flags
     inst_fragment_flags(cx, "C15.l")
+    from props.shared import forget_shape
+    forget_shape(cx, "C15.m")
 
 
 def group_width(cx, iid):
